@@ -20,3 +20,13 @@ pub fn e_mul(_ctx: &Ctx, left: E, right: E) -> E {
 pub fn e_num(_ctx: &Ctx, num: Num) -> E {
     num
 }
+#[derive(Debug, Clone)]
+pub struct Add {
+    pub left: Box<E>,
+    pub right: Box<E>,
+}
+#[derive(Debug, Clone)]
+pub struct Mul {
+    pub left: Box<E>,
+    pub right: Box<E>,
+}
